@@ -183,7 +183,7 @@ func histProfile(name string, decide []string, quick, thorough int, o histOpts, 
 
 func init() {
 	register(histProfile("C12", []string{"C12"}, 1200, 50000, histOpts{maxNodes: 4, pCanary: 0.4, fancy: []float64{0, 0.3}, faults: true, twoEDS: true, migration: true}, "C12.foreign-listed", "C12.write"))
-	register(histProfile("C14", []string{"C14"}, 1500, 60000, histOpts{maxNodes: 6, pCanary: 0.5, fancy: []float64{0, 0.3}, faults: true}, "C14.eds", "C14.ers"))
+	register(histProfile("C14", []string{"C14"}, 1500, 60000, histOpts{maxNodes: 6, pCanary: 0.5, fancy: []float64{0, 0.3}, faults: true, c02: true}, "C14.eds", "C14.ers", "C14.quiescent"))
 	register(histProfile("C02", []string{"C02"}, 800, 40000, histOpts{maxNodes: 6, pCanary: 0.5, fancy: []float64{0, 0.3, 0.7}, faults: true, sane: true, c02: true, migration: true}, "C02.converged"))
 }
 
